@@ -27,7 +27,10 @@ pub fn direct(ctx: &mut Ctx) {
         "C18" => random::direct(ctx),
         "C05" => props::direct_c05(ctx),
         "C07" => scalar::direct_c07(ctx),
-        "C03" => scalar::direct_c03(ctx),
+        "C03" => {
+            scalar::direct_c03(ctx);
+            props::direct_c03_slots(ctx);
+        }
         _ => (),
     }
 }
